@@ -194,6 +194,7 @@ type Job struct {
 	MaxPaths   int     `json:"max_paths"`
 	Unwind     int     `json:"unwind"`
 	MaxPreempt int     `json:"max_preempt"`
+	MaxDeviate int     `json:"max_deviate"`
 	TimeoutMs  int     `json:"timeout_ms"`
 	Solver     string  `json:"solver"`
 }
@@ -267,6 +268,7 @@ func (in *Interp) runJob(job Job) (res *JobResult) {
 	in.solver.Reset()
 	in.unwind = job.Unwind
 	in.maxPreempt = job.MaxPreempt
+	in.maxDeviate = job.MaxDeviate
 	in.fnSeen = map[*ssa.Function]bool{}
 	in.lastModel = nil
 	q0, t0 := in.solver.Queries, in.solver.Time
@@ -360,6 +362,7 @@ func main() {
 		maxPaths := fs.Int("paths", 20000, "path cap")
 		unwind := fs.Int("unwind", 0, "loop bound")
 		preempt := fs.Int("preempt", 2, "preemption bound")
+		deviate := fs.Int("deviate", 2, "bound on non-default choices at blocking points")
 		solver := fs.String("solver", "z3-new", "solver")
 		fs.Parse(os.Args[2:])
 		in, err := loadProgram(*repo)
@@ -385,7 +388,7 @@ func main() {
 			}()
 			in.initAll()
 		}()
-		job := Job{Harness: fs.Arg(0), MaxPaths: *maxPaths, Unwind: *unwind, MaxPreempt: *preempt, Solver: *solver}
+		job := Job{Harness: fs.Arg(0), MaxPaths: *maxPaths, Unwind: *unwind, MaxPreempt: *preempt, MaxDeviate: *deviate, Solver: *solver}
 		for _, a := range fs.Args()[1:] {
 			var v int64
 			fmt.Sscan(a, &v)
